@@ -39,10 +39,12 @@ RULE = ("Data tensors of order 2-4 (CP, Tucker) / 3 (PARAFAC2, ragged slice list
         "HALS with tol=0); budgets 0-3; Tucker fixed factors orthonormal (non-orthonormal = separate sub-check, clause (b) "
         "only). Oracle: dense reconstructions by np.einsum sublists from pristine copies of the supplied init (a: rel "
         "1e-10), bitwise comparison of fixed-mode factors (b), dense iterate of the weighted start vs. the start with the "
-        "weights absorbed into a drawn mode (c: rel 1e-8 of max(1,|X|,|iterate|), tol=0, no l2_reg; HALS with non-uniform "
-        "weights 1e-2 because its inner early stop is not scale-invariant). Counted discards: LinAlgError; sweeps whose "
-        "iterate moves by > 1e-9 under a 1e-12 perturbation of the start (ill-conditioned); PARAFAC2 starts whose "
-        "projection step is rank-deficient. "
+        "weights absorbed into a drawn mode (c: relative to max(1,|X|,|iterate|), tol=0, no l2_reg; tolerances >= 100 x the "
+        "measured worst deviation: MU / HALS 1e-8, CP-ALS 1e-7, PARAFAC2 3e-7, PARAFAC2 with line-search jumps 2e-6; HALS with "
+        "non-uniform weights 1e-2 because its inner early stop is not scale-invariant). Counted discards: LinAlgError; any "
+        "normal-equation matrix along the compared sweeps (recomputed from the iterates) singular or with cond > 1e8; sweeps "
+        "whose iterate moves by > 1e-9 under a 1e-12 perturbation of the start; PARAFAC2 iterates whose projection step is "
+        "rank-deficient. "
         "Non-trivial: non-unit weights or at least one fixed mode; distinct = distinct case hash.")
 ASSUMPTIONS = ["NumPy einsum / linalg.qr are correct", "Hypothesis generates what its strategies describe",
                "CP-ALS, multiplicative NN-CP, HALS NN-CP and PARAFAC2-ALS sweeps are column-scaling-equivariant up to "
@@ -286,7 +288,12 @@ def _perturb(arrs, nonneg=False):
 
 
 COND_MAX = 1e8
-LS_REL = 1e-6            # tolerance of (c) for runs containing line-search jumps (see notes/c14.md, Corrections 6)
+# tolerances of clause (c), each >= 100 x the worst deviation measured on HEAD (notes/c14.md, Corrections 6):
+#   parafac 1.1e-10 / 33k cases, MU 1.2e-15 / 32k, HALS (uniform weights) 1.5e-13 / 25k,
+#   PARAFAC2 budgets 1-3 2.4e-9 / 50k, PARAFAC2 with line-search jumps 1.6e-8 / 96k
+CP_REL = {"parafac": 1e-7, "nn_mu": 1e-8, "nn_hals": 1e-8}
+P2_REL = 3e-7
+LS_REL = 2e-6
 _DEV_LOG = None          # set to a list by measurement scripts: (sub-check kind, n_iter, deviation / scale)
 
 
@@ -371,7 +378,7 @@ def o_cp_reexpress(case):
     loose = case["algo"] == "nn_hals" and not uniform
     if _DEV_LOG is not None and np.all(np.isfinite(d1)):
         _DEV_LOG.append((case["algo"] + ("/loose" if loose else ""), case["n_iter"], float(np.max(np.abs(d1 - d2))) / scale))
-    close(d1, d2, "c/reexpress", rel=1e-2 if loose else 1e-8, scale=scale)
+    close(d1, d2, "c/reexpress", rel=1e-2 if loose else CP_REL[case["algo"]], scale=scale)
     return {"nontrivial": True, "labels": [f"order={X.ndim}", f"w={_wsign(w)}", f"n={case['n_iter']}", f"absorb={m}",
                                            f"tol={'loose' if loose else 'tight'}"]}
 
@@ -737,9 +744,9 @@ def o_p2_reexpress(case):
     if all(np.all(np.isfinite(s)) for s in pert + got) and \
             max(float(np.max(np.abs(a - b))) for a, b in zip(pert, got)) > 1e-9 * scale:
         discard("ill-conditioned sweep (1e-12 perturbation moves the iterate by > 1e-9)")
-    rel = LS_REL if (case["linesearch"] and n >= 7) else 1e-8
+    rel = LS_REL if (case["linesearch"] and n >= 7) else P2_REL
     if _DEV_LOG is not None and all(np.all(np.isfinite(s)) for s in got):
-        _DEV_LOG.append(("parafac2/ls" if rel != 1e-8 else "parafac2", n,
+        _DEV_LOG.append(("parafac2/ls" if rel == LS_REL else "parafac2", n,
                          max(float(np.max(np.abs(a - b))) for a, b in zip(got, ref_run)) / scale))
     for g, s in zip(got, ref_run):
         close(g, s, "c/reexpress", rel=rel, scale=scale)
